@@ -37,30 +37,36 @@ Is(a) == l <= Len(Tr.lines) /\ Ln.a = a
 OwnerT == IF Ln.ok = "rl" THEN RL(Ln.b) ELSE HT(Ln.oa)
 
 Logged ==
-  \/ Is("Disp") /\ ~Ln.fw /\ Ln.act # 0 /\ nev + 1 = Ln.e /\ HDispatch(Ln.act, Ln.b, Ln.ty) /\ Last(o'.disp).out = Ln.out
+  \/ Is("Disp") /\ ~Ln.fw /\ Ln.act # 0 /\ nev + 1 = Ln.e /\ task[HT(Ln.act)].pc # "sync" /\ HDispatch(Ln.act, Ln.b, Ln.ty) /\ Last(o'.disp).out = Ln.out
   \/ Is("Disp") /\ ~Ln.fw /\ Ln.act = 0 /\ nev + 1 = Ln.e /\ DDispatch(Ln.drv, Ln.b, Ln.ty) /\ Last(o'.disp).out = Ln.out
   \/ Is("Disp") /\ Ln.fw /\ \E t \in Tasks : /\ task[t].fe = Ln.e /\ task[t].todo # <<>> /\ Head(task[t].todo).kind = "fwd"
                                             /\ Head(task[t].todo).to = Ln.b /\ OwnerNext(t) /\ Last(o'.disp).out = Ln.out
   \/ Is("ProcB") /\ Ln.ok = "rl" /\ task[RL(Ln.b)].e = Ln.e /\ (RLBegin(Ln.b) \/ RLGranted(Ln.b)) /\ task'[RL(Ln.b)].pc = "pb0"
   \/ Is("ProcB") /\ Ln.ok = "in" /\ q[Ln.b] # <<>> /\ Head(q[Ln.b]) = Ln.e /\ InlineTake(Ln.oa, Ln.b)
   \/ Is("ProcX") /\ task[OwnerT].fe = Ln.e /\ task[OwnerT].fb = Ln.b /\ ProcSelect(OwnerT) /\ task'[OwnerT].pc = "abort"
-  \/ Is("HEnter") /\ task[HT(Ln.act)].b = Ln.b /\ task[HT(Ln.act)].e = Ln.e /\ task[HT(Ln.act)].h = Ln.h
+  \/ Is("HEnter") /\ Ln.sync /\ nact + 1 = Ln.act /\ \E t \in Tasks : /\ task[t].fe = Ln.e /\ task[t].fb = Ln.b /\ task[t].todo # <<>>
+                                /\ Head(task[t].todo).id = Ln.h /\ Head(task[t].todo).kind = "sync"
+                                /\ TaskLabelKind(t) = Ln.byk /\ Last(ev[Ln.e].path) = Ln.rb /\ OwnerNext(t)
+  \/ Is("Disp") /\ ~Ln.fw /\ Ln.act # 0 /\ nev + 1 = Ln.e /\ task[HT(Ln.act)].pc = "sync" /\ SyncDispatch(task[HT(Ln.act)].owner, Ln.b, Ln.ty) /\ Last(o'.disp).out = Ln.out
+  \/ Is("HExit") /\ task[HT(Ln.act)].pc = "sync" /\ SyncFinish(task[HT(Ln.act)].owner, IF Ln.out = "ret" THEN "ret" ELSE "raise")
+  \/ Is("HReadBus") /\ task[HT(Ln.act)].pc = "sync" /\ Last(ev[task[HT(Ln.act)].e].path) = Ln.rb /\ UNCHANGED vars
+  \/ Is("HEnter") /\ ~Ln.sync /\ task[HT(Ln.act)].b = Ln.b /\ task[HT(Ln.act)].e = Ln.e /\ task[HT(Ln.act)].h = Ln.h
                   /\ TaskLabelKind(task[HT(Ln.act)].owner) = Ln.byk /\ Last(ev[Ln.e].path) = Ln.rb /\ HStart(Ln.act)
   \/ Is("HOp") /\ task[HT(Ln.act)].pc = (IF Ln.op = "y" THEN "yield" ELSE "sleep") /\ HWake(Ln.act)
   \/ Is("HReadBus") /\ cur = HT(Ln.act) /\ Last(ev[task[HT(Ln.act)].e].path) = Ln.rb /\ UNCHANGED vars
   \/ Is("AwB") /\ \E k \in DOMAIN task[HT(Ln.act)].kids : task[HT(Ln.act)].kids[k] = Ln.e /\ HAwaitBegin(Ln.act, k)
   \/ Is("AwE") /\ task[HT(Ln.act)].aw = Ln.e /\ (HAwaitDone(Ln.act) \/ InlineGiveUp(Ln.act))
-  \/ Is("HExit") /\ HFinish(Ln.act, IF Ln.out = "ret" THEN "ret" ELSE "raise")
+  \/ Is("HExit") /\ task[HT(Ln.act)].pc # "sync" /\ HFinish(Ln.act, IF Ln.out = "ret" THEN "ret" ELSE "raise")
   \/ Is("ProcE") /\ task[OwnerT].fe = Ln.e /\ task[OwnerT].fb = Ln.b /\ OwnerTail(OwnerT)
   \/ Is("XAwB") /\ \E k \in DOMAIN task[DT(Ln.d)].kids : task[DT(Ln.d)].kids[k] = Ln.e /\ DAwaitBegin(Ln.d, k)
   \/ Is("XAwE") /\ task[DT(Ln.d)].aw = Ln.e /\ DAwaitEnd(Ln.d)
   \/ Is("IdleB") /\ DIdleBegin(Ln.d, Ln.b)
   \/ Is("IdleE") /\ task[DT(Ln.d)].b = Ln.b /\ DIdleRecheck(Ln.d) /\ task'[DT(Ln.d)].pc = "run"
-  \/ (Is("Init") \/ Is("End")) /\ UNCHANGED vars
+  \/ (Is("Init") \/ Is("End") \/ Is("Acc")) /\ UNCHANGED vars
 
 Counted ==   \* silent steps that change the state
   \/ \E b \in B : RLStart(b) \/ RLTake(b) \/ RLPollIdle(b) \/ (RLBegin(b) /\ task'[RL(b)].pc = "lockwait")
-  \/ \E t \in Tasks : (ProcSelect(t) /\ task'[t].pc = "pb") \/ (OwnerNext(t) /\ task'[t].pc = "waith") \/ OwnerResume(t) \/ OwnerEpilogue(t) \/ OwnerAbort(t) \/ FwdReturn(t)
+  \/ \E t \in Tasks : (ProcSelect(t) /\ task'[t].pc = "pb") \/ (OwnerNext(t) /\ task'[t].pc = "waith") \/ OwnerResume(t) \/ OwnerEpilogue(t) \/ OwnerAbort(t) \/ FwdReturn(t) \/ SyncReturn(t)
   \/ \E a \in 1..MaxAct : HSuspend(a, "yield") \/ HSuspend(a, "sleep")
   \/ \E i \in 1..NDrv : DIdleStart(i) \/ DIdleJoin(i) \/ DIdleFlag(i) \/ (DIdleRecheck(i) /\ task'[DT(i)].pc # "run")
 Spins == \E a \in 1..MaxAct : InlineSpin(a) \/ SpinWake(a)     \* 1000 zero-sleeps revisit the same two states
